@@ -597,6 +597,9 @@ pub fn minimise(case: &Case, target: &Violation, max_evals: usize) -> (Case, Vio
                 continue;
             }
             evals += 1;
+            if !crate::case::hang_safe(&cand) {
+                continue;
+            }
             let vs = std::panic::catch_unwind(std::panic::AssertUnwindSafe(|| run_case(&cand)))
                 .unwrap_or_default();
             if let Some(v) = vs.into_iter().find(|v| v.key() == key) {
